@@ -136,3 +136,8 @@ package backend
 //@   ensures {C04} [copy-source-is-opaque] err == nil ==> IsPathComponent(ret2) && !HasDotSegment(ret0 + "/" + ret1)
 //@ func GetStringFromPtr
 //@   pure
+
+// ---- C01: the multipart ETag is "<md5 of the part digests>-<number of parts>" --------------------------------
+// (the suffix counts the parts of the completed upload; it is not the last part number)
+//@ func GetMultipartMD5
+//@   at-call fmt.Sprintf {C01} [the-suffix-is-the-number-of-parts] requires $0 == "\"%s-%d\"" && len($1) == 2 && as($1[1], int) == len(parts)
